@@ -135,4 +135,99 @@ InitComp(name, g, init, names) ==
      ELSE {<<IF names[i].h THEN names[i].l ELSE DefaultName(name, g, i), 1, 1>>}]
 
 InitHist(init) == <<Entry(TRUE, "initial", init)>>
+
+(***************************************************************************)
+(* A constructor call as logged by the harness (sizes: [cls, v] where cls  *)
+(* = "float" stands for the non-integer v + 0.5; limits: [cls, v] with cls *)
+(* in {"num", "nan", "none"}; initial volumes: [form, vals, nan, ncols]).  *)
+(***************************************************************************)
+SizeOK(sz) == sz.cls = "int" /\ sz.v >= 1
+
+CtorGeom(c) ==
+  IF c.kind = "trough" THEN [rows |-> 1, cols |-> c.cols.v, vrows |-> c.vrows.v]
+  ELSE [rows |-> c.rows.v, cols |-> c.cols.v, vrows |-> IF c.vrows.given THEN c.vrows.v ELSE 0]
+
+SizesValid(c) ==
+  IF c.kind = "trough"
+  THEN SizeOK(c.vrows) /\ SizeOK(c.cols) /\ c.vrows.v <= MaxRows
+  ELSE /\ SizeOK(c.rows) /\ SizeOK(c.cols) /\ c.rows.v <= MaxRows
+       /\ c.vrows.given => (SizeOK(c.vrows) /\ c.rows.v = 1 /\ c.vrows.v <= MaxRows)
+
+LimitsValid(c) == /\ c.minv.cls = "num" /\ c.maxv.cls = "num"
+                  /\ c.minv.v >= 0 /\ c.maxv.v > c.minv.v
+
+\* the initial volumes as a rows x cols matrix (real wells), laid out as given
+InitMatrix(c, g) ==
+  LET i == c.init IN
+  [r \in 1..g.rows |-> [cc \in 1..g.cols |->
+     IF i.form = "none" THEN 0
+     ELSE IF i.form = "scalar" THEN i.vals[1]
+     ELSE IF i.form = "percol" THEN i.vals[cc]
+     ELSE IF i.form = "flat" THEN i.vals[(r - 1) * g.cols + cc]
+     ELSE i.vals[(r - 1) * i.ncols + cc]]]
+
+InitShapeValid(c, g) ==
+  LET i == c.init  n == Len(i.vals) IN
+  CASE i.form = "none"   -> TRUE
+    [] i.form = "scalar" -> n = 1
+    [] i.form = "percol" -> n = g.cols
+    [] i.form = "flat"   -> n = g.rows * g.cols
+    [] i.form = "2d"     -> i.ncols = g.cols /\ n = g.rows * g.cols
+    [] OTHER -> FALSE
+
+InitValuesValid(c) ==
+  LET i == c.init IN
+  \A k \in 1..Len(i.vals) : ~i.nan[k] /\ i.vals[k] >= 0 /\ i.vals[k] <= c.maxv.v
+
+\* initial volumes per real well, column-major
+InitFlat(c, g) == LET m == InitMatrix(c, g) IN [k \in 1..NReal(g) |-> m[RealWell(g, k)[1] + 1][RealWell(g, k)[2] + 1]]
+
+NamesValid(c, g) ==
+  LET nm == c.names  flat == InitFlat(c, g) IN
+  IF ~nm.given THEN TRUE
+  ELSE IF c.kind = "trough"
+  THEN IF nm.isstr THEN g.cols = 1 /\ flat[1] > 0
+       ELSE /\ Len(nm.list) = g.cols
+            /\ \A k \in 1..g.cols : nm.list[k].h => flat[k] > 0
+  ELSE \A k \in 1..Len(nm.wells) :
+          LET e == nm.wells[k] IN
+          /\ e.w[1] >= 0 /\ e.w[1] < g.rows /\ e.w[2] >= 0 /\ e.w[2] < g.cols
+          /\ e.h => flat[RealIdx([rows |-> g.rows, cols |-> g.cols, vrows |-> 0], e.w)] > 0
+
+ValidSpec(c) ==
+  /\ SizesValid(c)
+  /\ LimitsValid(c)
+  /\ LET g == CtorGeom(c) IN
+     /\ InitShapeValid(c, g)
+     /\ InitValuesValid(c)
+     /\ NamesValid(c, g)
+
+\* per real well: the name given by the caller, if any
+GivenNames(c, g) ==
+  LET nm == c.names IN
+  [k \in 1..NReal(g) |->
+     IF ~nm.given THEN [h |-> FALSE, l |-> ""]
+     ELSE IF c.kind = "trough"
+     THEN (IF nm.isstr THEN [h |-> TRUE, l |-> nm.str] ELSE [h |-> nm.list[k].h, l |-> nm.list[k].l])
+     ELSE LET hits == {j \in 1..Len(nm.wells) : RealIdx([rows |-> g.rows, cols |-> g.cols, vrows |-> 0], nm.wells[j].w) = k /\ nm.wells[j].h}
+          IN IF hits = {} THEN [h |-> FALSE, l |-> ""]
+             ELSE [h |-> TRUE, l |-> nm.wells[CHOOSE j \in hits : TRUE].l]]
+
+\* what a successfully constructed labware must look like (C20)
+Consistent(c, o) ==
+  LET g == CtorGeom(c) IN
+  /\ o.wells = IdArray(g)
+  /\ o.shape = <<IdRows(g), g.cols>>
+  /\ o.nidx = NIds(g)
+  /\ \A k \in 1..NIds(g) : o.idx[k] = RealRC(g, <<(k - 1) \div g.cols, (k - 1) % g.cols>>)
+  /\ o.volshape = <<g.rows, g.cols>>
+  /\ o.finite
+  /\ o.minv >= 0 /\ o.minv < o.maxv
+  /\ \A k \in 1..Len(o.vol) : o.vol[k] >= 0 /\ o.vol[k] <= o.maxv
+  /\ o.hn = 1 /\ o.last.h /\ o.last.l = "initial" /\ o.last.s = o.vol
+  /\ o.trough = (g.vrows > 0)
+  /\ Len(o.comp) = Len(o.vol)
+  /\ \A k \in 1..Len(o.vol) :
+        IF o.vol[k] > 0 THEN Len(o.comp[k]) = 1 /\ o.comp[k][1][2] = 1 /\ o.comp[k][1][3] = 1
+        ELSE o.comp[k] = <<>>
 =============================================================================
